@@ -21,6 +21,10 @@ func TestVerif(t *testing.T) {
 		h = c14Harness{}
 	case "C10":
 		h = c10Harness{}
+	case "C08APP", "C09APP", "C03APP":
+		h = appHarness{prop: e.Prop}
+	case "C12APP":
+		h = multiHarness{}
 	default:
 		t.Fatalf("unknown property %s for package cmd/thruserv", e.Prop)
 	}
